@@ -17,30 +17,37 @@ pub struct ExContext<'a>(Context<'a>);
 #[verifier::external_body]
 pub struct SerializedValue { _p: () }
 
-// futures_channel::mpsc::UnboundedReceiver: opaque; `poll_next_unpin` stands for `Pin::new(&mut self).poll_next(cx)` (N13)
+// futures_channel::mpsc::UnboundedReceiver: opaque; `poll_next_unpin` stands for `Pin::new(&mut self).poll_next(cx)` (N13).
+// GHOST HISTORY: `taken()` counts the items the stream has yielded so far.
 pub mod mpsc {
     use super::*;
     #[verifier::external_body]
     #[verifier::reject_recursive_types(T)]
     pub struct UnboundedReceiver<T> { _p: core::marker::PhantomData<T> }
     impl<T> UnboundedReceiver<T> {
+        pub uninterp spec fn taken(&self) -> nat;
         #[verifier::external_body]
-        pub fn poll_next_unpin(&mut self, cx: &mut Context) -> (r: Poll<Option<T>>) { unimplemented!() }
+        pub fn poll_next_unpin(&mut self, cx: &mut Context) -> (r: Poll<Option<T>>)
+            ensures final(self).taken() == old(self).taken() + (if r matches Poll::Ready(Some(_)) { 1nat } else { 0nat }),
+        { unimplemented!() }
     }
 }
 
 // the channel end's connection to the client (aldrin/src/low_level/channel/raw.rs): opaque. `add_channel_capacity` sends an
-// AddChannelCapacity message; a grant of 0 would be a protocol violation (the broker closes a receiver that grants nothing
-// useful is not the point: the caller asserts diff >= 1), so it is a PRECONDITION here
+// AddChannelCapacity message. MODEL: the real method takes `&self` (its effect is a message to the broker); here it takes
+// `&mut self` so that a GHOST HISTORY `granted()` -- the total credit granted through this end so far -- can record the call (the
+// call site `self.inner.add_channel_capacity(diff)` type-checks against either signature). A grant of 0 is pointless and the caller
+// asserts `diff >= 1`: PRECONDITION.
 #[verifier::external_body]
 pub struct RawChannel<const SENDER: bool> { _p: () }
 impl RawChannel<false> {
+    pub uninterp spec fn granted(&self) -> nat;
     #[verifier::external_body]
-    pub(crate) fn add_channel_capacity(&self, capacity: u32)
+    pub(crate) fn add_channel_capacity(&mut self, capacity: u32)
         requires capacity >= 1,
+        ensures final(self).granted() == old(self).granted() + capacity,
     { unimplemented!() }
 }
-
 impl RawChannel<true> {
     #[verifier::external_body]
     pub(crate) fn send_item(&self, item: SerializedValue) -> (r: Result<(), Error>) { unimplemented!() }
@@ -70,21 +77,28 @@ impl Sender {
 }
 
 impl Receiver {
-    // the mirror of the granted credit stays within (0, max]
-    spec fn inv(&self) -> bool { 0 < self.cur_capacity <= self.max_capacity.get() }
+    // the mirror IS the outstanding credit: what was granted (the configured maximum at creation plus every later grant) minus
+    // what has been taken off the channel -- and it stays within (0, max], so the credit a sender can hold never exceeds the
+    // configured capacity and never runs dry while the receiver keeps polling
+    spec fn inv(&self) -> bool {
+        &&& 0 < self.cur_capacity <= self.max_capacity.get()
+        &&& self.cur_capacity + self.items.taken() == self.max_capacity.get() + self.inner.granted()
+    }
 
     //@fn aldrin/src/low_level/channel/established.rs Receiver::new
+        requires items.taken() == 0, inner.granted() == 0,      // a freshly established channel
         ensures r.inv(), r.cur_capacity == max_capacity.get(), r.max_capacity == max_capacity,
     //@end
 
     // one item taken off the channel uses one unit of the granted credit; at or below the low-water mark the receiver grants
-    // exactly `max - remaining` (at least 1, never more than max) and its mirror is back at the maximum -- so the sum of what was
-    // granted and not yet used never exceeds max_capacity, and no arithmetic here can overflow or underflow
+    // exactly `max - remaining` (at least 1, never more than max) and its mirror is back at the maximum; nothing is granted
+    // otherwise (in particular not when no item was taken); no arithmetic here can overflow or underflow
     //@fn aldrin/src/low_level/channel/established.rs Receiver::poll_next_serialized pin-poll-next vis=crate
         requires old(self).inv(),
         ensures
             final(self).inv(), final(self).max_capacity == old(self).max_capacity,
-            !(r matches Poll::Ready(Some(_))) ==> final(self).cur_capacity == old(self).cur_capacity,
+            !(r matches Poll::Ready(Some(_))) ==> final(self).cur_capacity == old(self).cur_capacity
+                && final(self).inner.granted() == old(self).inner.granted(),
             r matches Poll::Ready(Some(_)) ==> final(self).cur_capacity ==
                 (if old(self).cur_capacity - 1 <= LOW_CAPACITY { old(self).max_capacity.get() } else { (old(self).cur_capacity - 1) as u32 }),
     //@end
